@@ -248,7 +248,8 @@ S_CliClose(k) ==
   /\ \A c \in Calls : ck[c] = k => cst[c] \notin {"queued", "sent"}
   /\ closed' = [closed EXCEPT ![k] = TRUE]
   /\ c2s' = [c2s EXCEPT ![k] = Append(@, <<"eof", 0>>)]
-  /\ UNCHANGED <<y, lq, srv, ckey, chand, cdead, cq, cinf, cpend, s2c, sinf, respq, hs, cst, ck, dl, gate, now, phase, sched, nenv>>
+  /\ y' = YClientGone(y, k)
+  /\ UNCHANGED <<lq, srv, ckey, chand, cdead, cq, cinf, cpend, s2c, sinf, respq, hs, cst, ck, dl, gate, now, phase, sched, nenv>>
 
 SysStep ==
   \/ S_Arrive
